@@ -257,6 +257,44 @@ def n13_match_bytestr(toks, counts):
                     alts = [x for x in p if not is_p(x, "|")]
                     if not all((x.kind == "str" and x.text.startswith('b"')) or is_id(x, "_") for x in alts):
                         ok = False
+                # second form: byte-string literals NESTED in constructor patterns (`Some(Named(b"xml")) => ..`):
+                # each literal becomes a fresh binding plus a guard `bytes_eq(binding, literal)`; arm order is kept
+                nested = (not ok) and bool(arms) and any(any(x.kind == "str" and x.text.startswith('b"') for x in p) for p, _ in arms) \
+                    and not any(is_p(x, "|") for p, _ in arms for x in p)
+                if nested:
+                    new = list(toks[i:bo + 1])
+                    for p, e in arms:
+                        conds = []
+                        pat = []
+                        guard = []
+                        in_guard = False
+                        for x in p:
+                            if is_id(x, "if") and not in_guard:
+                                in_guard = True
+                                continue
+                            if in_guard:
+                                guard.append(x)
+                            elif x.kind == "str" and x.text.startswith('b"'):
+                                seq[0] += 1
+                                v = "__b13_%d" % seq[0]
+                                pat.extend(frag(v, x.trivia))
+                                conds.append("bytes_eq(%s, %s)" % (v, x.text))
+                            else:
+                                pat.append(x)
+                        new += pat
+                        if conds or guard:
+                            g = " && ".join(conds)
+                            new += frag(" if " + g + (" && (" if (conds and guard) else ""))
+                            new += guard
+                            if conds and guard:
+                                new += frag(")")
+                        body_e = go(list(e))
+                        new += frag(" =>") + body_e + ([] if (body_e and is_p(body_e[-1], "}")) else []) + frag(",")
+                    new += [toks[bc]]
+                    out.extend(new)
+                    counts["N13"] = counts.get("N13", 0) + 1
+                    i = bc + 1
+                    continue
                 if ok and is_id(arms[-1][0][0], "_") and len(arms[-1][0]) == 1:
                     seq[0] += 1
                     v = "__m13_%d" % seq[0]
@@ -291,6 +329,9 @@ def _body_open(toks, i):
     raise AnchorError("no block found")
 
 
+N1_MATCH_FORM = [False]
+
+
 def n1_for(toks, counts):
     seq = [0]
 
@@ -314,9 +355,16 @@ def n1_for(toks, counts):
                 body = go(toks[bo:bc + 1])
                 seq[0] += 1
                 it = "__it%d" % seq[0]
-                new = frag("{ let mut %s =" % it, t.trivia) + [x.clone() for x in expr] + \
-                    frag("; loop { match %s.next() { None => { break; } Some(" % it, "") + \
-                    [x.clone() for x in pat] + frag(") =>", "") + body + frag("} } }")
+                if N1_MATCH_FORM[0]:
+                    # the Rust Reference desugaring proper: `match E { mut iter => loop { .. } }` keeps temporaries
+                    # of E alive for the whole loop (needed when E borrows from a temporary)
+                    new = frag("match", t.trivia) + [x.clone() for x in expr] + \
+                        frag("{ mut %s => loop { match %s.next() { None => { break; } Some(" % (it, it), "") + \
+                        [x.clone() for x in pat] + frag(") =>", "") + body + frag("} } }")
+                else:
+                    new = frag("{ let mut %s =" % it, t.trivia) + [x.clone() for x in expr] + \
+                        frag("; loop { match %s.next() { None => { break; } Some(" % it, "") + \
+                        [x.clone() for x in pat] + frag(") =>", "") + body + frag("} } }")
                 out.extend(new)
                 counts["N1"] = counts.get("N1", 0) + 1
                 i = bc + 1
@@ -617,8 +665,9 @@ def n12_const(toks, counts):
     mk = lambda kind, text, like: Tok(kind, text, " ", like.line, "norm")
     for i, t in enumerate(toks):
         if i == 0:
-            out.append(mk("id", "exec", t))
-            out.append(t)
+            # `exec` takes over the leading trivia (doc comments) of `const`
+            out.append(Tok("id", "exec", t.trivia, t.line, "norm"))
+            out.append(t.clone(trivia=" "))
             continue
         if not seen_eq and is_p(t, "&") and not (i + 1 < len(toks) and toks[i + 1].kind == "life"):
             out.append(t)
@@ -653,7 +702,9 @@ def apply_all(toks, repo, opts, notes):
     if opts.get("n13"):
         toks = n13_match_bytestr(toks, counts)
     toks = n8_bytestr(toks, counts)
+    N1_MATCH_FORM[0] = (opts.get("n1") == "match")
     toks = n1_for(toks, counts)
+    N1_MATCH_FORM[0] = False
     toks = n4_while_let(toks, counts)
     toks = n3_break_value(toks, counts)
     if opts.get("n11"):
